@@ -192,7 +192,7 @@ func c11Run(w *W) {
 	for t := range progs {
 		n := 5 + w.Choose(simrt.SProg, 26)
 		for i := 0; i < n; i++ {
-			k := []string{"Send", "Send", "Recv", "Recv", "SetOption", "SetOption", "GetOption", "Context", "Dial", "Listen", "PipeClose", "Sleep", "EndpointOption", "EndpointOption", "PipeOption", "PeerDial"}[w.Choose(simrt.SProg, 16)]
+			k := []string{"Send", "Send", "Recv", "Recv", "SetOption", "SetOption", "GetOption", "Context", "Dial", "Listen", "PipeClose", "Sleep", "EndpointOption", "EndpointOption", "PipeOption", "PeerDial", "EndpointClose", "SetHook", "EndpointInfo"}[w.Choose(simrt.SProg, 19)]
 			progs[t] = append(progs[t], c11Op{k, w.Choose(simrt.SProg, 1<<16), w.Choose(simrt.SProg, 1<<16)})
 		}
 		if t == closer {
@@ -370,6 +370,59 @@ func c11Run(w *W) {
 						w.Sleep(time.Duration(op.b%1000) * time.Microsecond)
 						_ = ps.Close()
 					}
+				case "EndpointClose":
+					// a dialer or listener is closed while others use it and the socket
+					mu.Lock()
+					var ep interface{ Close() error }
+					if n := len(dialers) + len(listeners); n > 1 {
+						i := 1 + op.b%(n-1) // (never the first listener: the peers' traffic runs over it)
+						if i < len(listeners) {
+							ep = listeners[i]
+						} else {
+							ep = dialers[i-len(listeners)]
+						}
+					}
+					mu.Unlock()
+					if ep != nil {
+						check("Close", ep.Close())
+					}
+				case "SetHook":
+					// the hook is replaced while connections come and go
+					prev := s.SetPipeEventHook(func(ev mangos.PipeEvent, p mangos.Pipe) {
+						if ev == mangos.PipeEventAttached {
+							mu.Lock()
+							pipes = append(pipes, p)
+							mu.Unlock()
+						}
+					})
+					if op.a%2 == 0 && prev != nil {
+						s.SetPipeEventHook(prev)
+					}
+				case "EndpointInfo":
+					mu.Lock()
+					var l mangos.Listener
+					var d mangos.Dialer
+					var p mangos.Pipe
+					if n := len(listeners); n > 0 {
+						l = listeners[op.a%n]
+					}
+					if n := len(dialers); n > 0 {
+						d = dialers[op.a%n]
+					}
+					if n := len(pipes); n > 0 {
+						p = pipes[op.b%n]
+					}
+					mu.Unlock()
+					if l != nil {
+						_ = l.Address()
+					}
+					if d != nil {
+						_ = d.Address()
+					}
+					if p != nil {
+						_, _, _, _ = p.ID(), p.Listener(), p.Dialer(), p.Address()
+					}
+					_ = s.Info()
 				case "Sleep":
 					w.Sleep(time.Duration(op.a%2000) * time.Microsecond)
 				case "Close":
